@@ -425,6 +425,20 @@ pub proof fn lemma_le32_roundtrip(v: u32, rest: Seq<u8>)
     assert((b0 as u8) as u32 == b0 && (b1 as u8) as u32 == b1 && (b2 as u8) as u32 == b2 && (b3 as u8) as u32 == b3);
 }
 
+pub proof fn lemma_le64_roundtrip(v: u64, rest: Seq<u8>)
+    ensures le64(enc_le64(v) + rest) == v, enc_le64(v).len() == 8,
+{
+    let lo: u32 = (v % 0x1_0000_0000) as u32;
+    let hi: u32 = (v / 0x1_0000_0000) as u32;
+    let s = enc_le64(v) + rest;
+    assert(s =~= enc_le32(lo) + (enc_le32(hi) + rest));
+    assert(s.skip(4) =~= enc_le32(hi) + rest);
+    lemma_le32_roundtrip(lo, enc_le32(hi) + rest);
+    lemma_le32_roundtrip(hi, rest);
+    assert((hi as u64) * 0x1_0000_0000 + (lo as u64) == v) by (bit_vector)
+        requires lo == (v % 0x1_0000_0000) as u32, hi == (v / 0x1_0000_0000) as u32;
+}
+
 pub proof fn lemma_xz_rt_block(e: Seq<u8>, data: Seq<u8>, rest: Seq<u8>)
     requires l2_decodes_to(e, data),
     ensures sp_xz_block(2, enc_xz_block(e).skip(1) + rest, 0)
